@@ -24,7 +24,7 @@ const (
 	c09Timeout  = 3 * time.Second
 )
 
-var c09Outcomes = []string{"dial-error", "refused", "no-connack", "close-before-connack", "close-after-connack", "protocol-error", "keepalive-timeout"}
+var c09Outcomes = []string{"dial-error", "dial-timeout", "refused", "no-connack", "close-before-connack", "close-after-connack", "protocol-error", "keepalive-timeout"}
 
 type c09Attempt struct {
 	outcome string
@@ -141,6 +141,13 @@ func c09Body(script []string, base, max time.Duration, stop c09Stop, outNet **en
 			if o == "dial-error" {
 				a.endAt = vrt.Now()
 				return nil, errors.New("c09: dial refused")
+			}
+			if o == "dial-timeout" {
+				// the dial itself takes time before it fails (connect timeout): the wait before the
+				// next attempt is counted from the moment the failure is known
+				vrt.Sleep(int64(1500 * time.Millisecond))
+				a.endAt = vrt.Now()
+				return nil, errors.New("c09: dial timed out")
 			}
 			p := &c09Peer{a: a}
 			a.conn = net.NewConn(p)
